@@ -51,6 +51,10 @@ func (e Effect) String() string {
 		return "send on " + strings.Join(e.Val, ",")
 	case "mapupdate":
 		return "map update " + strings.Join(e.Val, ",")
+	case "retval":
+		return fmt.Sprintf("return result#%d containing %s", e.Idx, strings.Join(e.Val, ","))
+	case "retnot":
+		return fmt.Sprintf("return result#%d not containing %s", e.Idx, strings.Join(e.Val, ","))
 	}
 	return e.Kind
 }
@@ -88,14 +92,21 @@ func (w *World) Sites(fn *ssa.Function, e Effect) []Site {
 			case "retok":
 				if rt, ok := in.(*ssa.Return); ok {
 					idx := errResultIndex(fn)
-					if idx >= 0 && idx < len(rt.Results) && isNilConst(rt.Results[idx]) {
+					if idx >= 0 && idx < len(rt.Results) && isNilConst(retValue(rt, idx)) {
 						out = append(out, Site{in, b, "return nil"})
 					}
 				}
 			case "retconst":
 				if rt, ok := in.(*ssa.Return); ok && e.Idx < len(rt.Results) {
-					if c, ok := seeThrough(rt.Results[e.Idx]).(*ssa.Const); ok && constString(c) == e.Const {
+					if c, ok := seeThrough(retValue(rt, e.Idx)).(*ssa.Const); ok && constString(c) == e.Const {
 						out = append(out, Site{in, b, "return " + e.Const})
+					}
+				}
+			case "retval", "retnot":
+				if rt, ok := in.(*ssa.Return); ok && e.Idx < len(rt.Results) {
+					has := Render(retValue(rt, e.Idx)).Has(e.Val...)
+					if (e.Kind == "retval") == has {
+						out = append(out, Site{in, b, "return " + clip(Render(rt.Results[e.Idx]).String(), 60)})
 					}
 				}
 			case "mapupdate":
@@ -275,7 +286,7 @@ func (r *Report) failIsError(key string, fn *ssa.Function, fnKey string, ifs []i
 		for b := range reachFrom(fail, map[*ssa.BasicBlock]bool{ii.b: true}) {
 			if rt := returnOf(b); rt != nil {
 				idx := errResultIndex(fn)
-				if idx >= 0 && idx < len(rt.Results) && isNilConst(rt.Results[idx]) {
+				if idx >= 0 && idx < len(rt.Results) && isNilConst(retValue(rt, idx)) {
 					bad = w.posOr(rt.Pos(), fn)
 				}
 			}
@@ -447,6 +458,9 @@ func (r *Report) Count(key, fnKey string, effs []Effect, exits string, min, max 
 	for _, b := range fn.Blocks {
 		if rt := returnOf(b); rt != nil {
 			if exits == "ok" && returnIsFailure(fn, rt) {
+				continue
+			}
+			if exits == "fail" && !returnIsFailure(fn, rt) {
 				continue
 			}
 			ex[b] = true
@@ -1604,4 +1618,171 @@ func (r *Report) RetHas(key, fnKey string, idx int, atoms ...string) {
 		return
 	}
 	r.OK(k, d, w.FnPos(fn), fmt.Sprintf("%d return(s)", n))
+}
+
+// =====================================================================================
+// Disjunctive gating and boolean-flag provenance
+
+func RetValEff(idx int, atoms ...string) Effect { return Effect{Kind: "retval", Idx: idx, Val: atoms} }
+func RetNotEff(idx int, atoms ...string) Effect { return Effect{Kind: "retnot", Idx: idx, Val: atoms} }
+
+// passEdges returns the (block -> successor index) pass edges of every If matching any of the conds.
+func (w *World) passEdges(fn *ssa.Function, conds []Cond) (map[*ssa.BasicBlock]int, int) {
+	out := map[*ssa.BasicBlock]int{}
+	n := 0
+	for _, ii := range w.ifs(fn) {
+		for _, c := range conds {
+			if m, passOnTrue := c.Match(ii.pred); m {
+				idx := 0
+				if !passOnTrue {
+					idx = 1
+				}
+				out[ii.b] = idx
+				n++
+				break
+			}
+		}
+	}
+	return out, n
+}
+
+// reachableCut: blocks reachable from entry when the given pass edges are removed.
+func reachableCut(fn *ssa.Function, cut map[*ssa.BasicBlock]int) map[*ssa.BasicBlock]bool {
+	seen := map[*ssa.BasicBlock]bool{fn.Blocks[0]: true}
+	st := []*ssa.BasicBlock{fn.Blocks[0]}
+	for len(st) > 0 {
+		b := st[len(st)-1]
+		st = st[:len(st)-1]
+		for i, s := range b.Succs {
+			if ci, ok := cut[b]; ok && ci == i {
+				continue
+			}
+			if !seen[s] {
+				seen[s] = true
+				st = append(st, s)
+			}
+		}
+	}
+	return seen
+}
+
+// GateAny: every site of e is reachable only through the pass edge of at least one check matching one of conds
+// (disjunctive gate: `if a || b { effect }`, or several guarded paths into one block).
+func (r *Report) GateAny(key, fnKey string, e Effect, conds []Cond, minSites int) {
+	w := r.W
+	fn := w.Fn(fnKey)
+	d := fmt.Sprintf("in %s every [%s] is reached only through (%v)", fnKey, e, conds)
+	k := key + "|" + fnKey + "|" + e.String() + "|any"
+	if fn == nil {
+		r.Unres(k, d, "function not found")
+		return
+	}
+	sites := w.Sites(fn, e)
+	if minSites == 0 {
+		minSites = 1
+	}
+	if len(sites) < minSites {
+		r.Unres(k, d, fmt.Sprintf("%d effect sites, expected >= %d", len(sites), minSites))
+		return
+	}
+	cut, n := w.passEdges(fn, conds)
+	if n == 0 {
+		r.Bad(k, d, w.FnPos(fn), "no condition in the function matches any of the alternatives")
+		return
+	}
+	reach := reachableCut(fn, cut)
+	for i, s := range sites {
+		kk := k
+		if len(sites) > 1 {
+			kk = fmt.Sprintf("%s#%d", k, i)
+		}
+		if reach[s.Block] {
+			r.Bad(kk, d, w.posOr(s.Instr.Pos(), fn), "effect reachable without passing any of the checks")
+		} else {
+			r.OK(kk, d, w.Pos(s.Instr.Pos()), fmt.Sprintf("%d matching checks cut all paths", n))
+		}
+	}
+}
+
+// FlagTrueOnlyUnder: the boolean flag that is the condition matching flagCond (a phi merging constants) receives
+// the constant `val` only from blocks reached through the pass edge of one of conds.
+func (r *Report) FlagOnlyUnder(key, fnKey string, flagAtoms []string, val string, conds []Cond) {
+	w := r.W
+	fn := w.Fn(fnKey)
+	d := fmt.Sprintf("in %s the flag tested by [%s] is set to %s only under (%v)", fnKey, strings.Join(flagAtoms, " "), val, conds)
+	k := key + "|" + fnKey + "|flag=" + val
+	if fn == nil {
+		r.Unres(k, d, "function not found")
+		return
+	}
+	w.FuncsAnalysed[fn] = true
+	var phis []*ssa.Phi
+	for _, b := range fn.Blocks {
+		if i := ifOf(b); i != nil {
+			v := i.Cond
+			if u, ok := v.(*ssa.UnOp); ok && u.Op == token.NOT {
+				v = u.X
+			}
+			if p, ok := v.(*ssa.Phi); ok && Render(p).Has(flagAtoms...) {
+				phis = append(phis, p)
+			}
+		}
+	}
+	if len(phis) != 1 {
+		r.Unres(k, d, fmt.Sprintf("%d flag conditions found, expected 1", len(phis)))
+		return
+	}
+	cut, n := w.passEdges(fn, conds)
+	if n == 0 {
+		r.Bad(k, d, w.FnPos(fn), "no condition matches the alternatives")
+		return
+	}
+	reach := reachableCut(fn, cut)
+	seen := map[*ssa.Phi]bool{}
+	bad := ""
+	nset := 0
+	var visit func(p *ssa.Phi)
+	visit = func(p *ssa.Phi) {
+		if seen[p] {
+			return
+		}
+		seen[p] = true
+		for i, e := range p.Edges {
+			switch x := e.(type) {
+			case *ssa.Const:
+				if constString(x) == val {
+					nset++
+					pred := p.Block().Preds[i]
+					// the edge pred->phi block itself may be a cut pass edge
+					if ci, ok := cut[pred]; ok && pred.Succs[ci] == p.Block() && len(pred.Succs) == 2 && pred.Succs[1-ci] != p.Block() {
+						continue
+					}
+					if reach[pred] {
+						bad = fmt.Sprintf("constant %s flows in from block %d (%s) which is reachable without any of the checks", val, pred.Index, w.posOr(lastPos(pred), fn))
+					}
+				}
+			case *ssa.Phi:
+				visit(x)
+			}
+		}
+	}
+	visit(phis[0])
+	if nset == 0 {
+		r.Unres(k, d, "flag never receives the constant")
+		return
+	}
+	if bad != "" {
+		r.Bad(k, d, w.FnPos(fn), bad)
+	} else {
+		r.OK(k, d, w.FnPos(fn), fmt.Sprintf("%d setting edge(s), all behind %d matching checks", nset, n))
+	}
+}
+
+func lastPos(b *ssa.BasicBlock) token.Pos {
+	for i := len(b.Instrs) - 1; i >= 0; i-- {
+		if p := b.Instrs[i].Pos(); p.IsValid() {
+			return p
+		}
+	}
+	return token.NoPos
 }
